@@ -46,8 +46,10 @@ var HistNames = map[string][3]string{
 	"glob":    {"glob[1]", "glob*", "glob?"},
 	"bslash":  {"back\\slash", "back", "back\\\\"},
 	"stamped": {"t20240101.10:00:00x", "t2024", "20240101"},
+	"ext":     {"load.data", "load", "x.dat"},       // names containing the store's own file extension
+	"extdir":  {"job", "job2", "other"},            // plain names below a data directory whose name contains ".dat"
 }
-var HistNameOrder = []string{"plain", "spaces", "suffix", "dots", "short", "glob", "bslash", "stamped"}
+var HistNameOrder = []string{"plain", "spaces", "suffix", "dots", "short", "glob", "bslash", "stamped", "ext", "extdir"}
 
 // start stamps: index 1..9 -> offset from today's midnight (UTC); 1..3 fall on the day before
 var histStampOff = []time.Duration{0, -900 * time.Millisecond, -100 * time.Millisecond, -50 * time.Millisecond,
@@ -62,7 +64,13 @@ func histStatus(d, r, st string) *model.Status {
 
 func RunHist(sc HistScenario, base string, emit func(Ev)) error {
 	dir := filepath.Join(base, fmt.Sprintf("hist%d", sc.Scen))
+	if sc.Names == "extdir" {
+		dir = filepath.Join(base, fmt.Sprintf("hist%d.data", sc.Scen), "history")
+	}
 	os.MkdirAll(dir, 0o755)
+	if sc.Names == "extdir" {
+		defer os.RemoveAll(filepath.Dir(dir))
+	}
 	defer os.RemoveAll(dir)
 	names := HistNames[sc.Names]
 	file := func(d string) string {
